@@ -93,6 +93,7 @@ public:
   std::vector<std::string> Dirs;
 
   // ---- per function state
+  bool TaskExecute = false; std::set<const VarDecl *> OuterLocals;
   const FunctionDecl *FD = nullptr; std::unique_ptr<CFG> G; std::unique_ptr<ParentMap> PM;
   std::map<const Stmt *, std::pair<int, int>> BlockOf;       // stmt -> (block id, element index)
   std::map<const VarDecl *, std::vector<const DeclRefExpr *>> Refs;
@@ -469,6 +470,27 @@ public:
       json::Object o{{"k", "fieldw"}, {"field", ME->getMemberDecl()->getNameAsString()}, {"obj", A.objKind(ME->getBase())}, {"rhs", OC->getNumArgs() > 1 ? A.text(OC->getArg(1)) : ""}, {"how", "assign"}};
       base(o, OC); Ev.push_back(std::move(o)); return true;
     }
+    // references to locals declared outside every loop, in Task::execute overrides (scratch state carried
+    // from one index to the next)
+    bool VisitDeclRefExpr(DeclRefExpr *DR) {
+      if (!A.TaskExecute) return true;
+      auto *VD = dyn_cast<VarDecl>(DR->getDecl());
+      if (!VD || !VD->isLocalVarDecl() || isa<ParmVarDecl>(VD)) return true;
+      if (!A.OuterLocals.count(VD)) return true;
+      std::vector<Use> uses; A.classify(DR, uses, 0);
+      std::string kind = "read", how;
+      for (auto &u : uses) {
+        if (u.kind == "write" && (u.how == "assign" || u.how == "op:operator=")) { kind = "kill"; how = u.how; break; }
+        if (u.kind == "escape" && u.how == "arg") { kind = "kill"; how = "out-arg:" + u.callee; }
+        else if (u.kind == "write" || u.kind == "escape") { if (kind != "kill") { kind = "rmw"; how = u.how; } }
+        else if (u.kind == "unknown") { if (kind == "read") { kind = "unknown"; how = u.how; } }
+      }
+      // compound assignment reads the old value
+      if (kind == "kill") if (const Stmt *P = A.PM->getParent(DR)) if (auto *BO = dyn_cast<BinaryOperator>(P)) if (BO->isCompoundAssignmentOp()) kind = "rmw";
+      json::Object o{{"k", "lref"}, {"name", VD->getNameAsString()}, {"kind", kind}, {"how", how}};
+      base(o, DR); Ev.push_back(std::move(o));
+      return true;
+    }
     bool VisitDeclStmt(DeclStmt *DS) {
       for (auto *D : DS->decls()) if (auto *VD = dyn_cast<VarDecl>(D)) {
         json::Object o{{"k", "vardecl"}, {"name", VD->getNameAsString()}, {"type", VD->getType().getAsString()}, {"init", VD->getInit() ? A.text(VD->getInit()) : ""}};
@@ -600,6 +622,11 @@ public:
     }
     fn["blocks"] = std::move(blocks);
     json::Array ev;
+    TaskExecute = false; OuterLocals.clear();
+    if (auto *MD = dyn_cast<CXXMethodDecl>(F)) if (derivesFrom(MD->getParent(), "PyImath::Task") && nm(F) == "execute") {
+      TaskExecute = true;
+      if (auto *CS = dyn_cast<CompoundStmt>(Body)) for (auto *S : CS->body()) if (auto *DS = dyn_cast<DeclStmt>(S)) for (auto *D : DS->decls()) if (auto *VD = dyn_cast<VarDecl>(D)) OuterLocals.insert(VD);
+    }
     { BodyVisitor BV(*this, ev); BV.TraverseStmt(Body); }
     { EventVisitor EV(*this, ev); EV.TraverseStmt(Body); }
     // constructor initialisers: constructions / storage uses inside them are not in the body
